@@ -1,6 +1,7 @@
 package zzsimrt
 
 import (
+	"os"
 	"sync/atomic"
 	"time"
 	"unsafe"
@@ -19,6 +20,12 @@ import (
 //
 // Timer channels are served by a dedicated goroutine (clockG) so that firing a timer creates no
 // happens-before edge from whichever task happened to advance the clock.
+
+// FreeDaemons is the degraded mode for trees whose own goroutines communicate in ways the simulator
+// cannot own (DESIGN.md §4.9): goroutines started by the library run natively (real scheduler, real
+// clock, real blocking), only the simulated callers stay under the seeded scheduler. Channel operations
+// of callers still poll, with real-time patience when nothing simulated can run.
+var FreeDaemons = os.Getenv("ZZSIM_FREE_DAEMONS") == "1"
 
 var (
 	simNow       int64 // simulated nanoseconds since process start
@@ -60,7 +67,7 @@ func hbAcquire(p *uint32) { atomic.LoadUint32(p) }
 //
 //go:norace
 func TimeNow() time.Time {
-	if cur() == nil {
+	if FreeDaemons || cur() == nil {
 		return time.Now()
 	}
 	return simEpoch.Add(time.Duration(simNow))
@@ -68,7 +75,7 @@ func TimeNow() time.Time {
 
 // TimeSince replaces time.Since.
 func TimeSince(t time.Time) time.Duration {
-	if cur() == nil {
+	if FreeDaemons || cur() == nil {
 		return time.Since(t)
 	}
 	return TimeNow().Sub(t)
@@ -76,7 +83,7 @@ func TimeSince(t time.Time) time.Duration {
 
 // TimeUntil replaces time.Until.
 func TimeUntil(t time.Time) time.Duration {
-	if cur() == nil {
+	if FreeDaemons || cur() == nil {
 		return time.Until(t)
 	}
 	return t.Sub(TimeNow())
@@ -87,7 +94,7 @@ func TimeUntil(t time.Time) time.Duration {
 //go:norace
 func TimeSleep(d time.Duration) {
 	t := cur()
-	if t == nil {
+	if FreeDaemons || t == nil {
 		time.Sleep(d)
 		return
 	}
@@ -105,7 +112,7 @@ func TimeSleep(d time.Duration) {
 //go:norace
 func AdvanceClock(d time.Duration) {
 	t := cur()
-	if t == nil || d <= 0 {
+	if FreeDaemons || t == nil || d <= 0 {
 		return
 	}
 	simNow += int64(d)
@@ -264,7 +271,7 @@ func findTimer(ch <-chan time.Time) *simTimer {
 
 // TimeAfter replaces time.After.
 func TimeAfter(d time.Duration) <-chan time.Time {
-	if cur() == nil {
+	if FreeDaemons || cur() == nil {
 		return time.After(d)
 	}
 	tm := newTimer(d, 0, nil)
@@ -274,7 +281,7 @@ func TimeAfter(d time.Duration) <-chan time.Time {
 
 // TimeTick replaces time.Tick.
 func TimeTick(d time.Duration) <-chan time.Time {
-	if cur() == nil {
+	if FreeDaemons || cur() == nil {
 		return time.Tick(d)
 	}
 	if d <= 0 {
@@ -288,7 +295,7 @@ func TimeTick(d time.Duration) <-chan time.Time {
 // TimeNewTicker replaces time.NewTicker. The returned Ticker only carries the channel; Stop and
 // Reset calls on it are routed to TickerStop / TickerReset by the instrumenter.
 func TimeNewTicker(d time.Duration) *time.Ticker {
-	if cur() == nil {
+	if FreeDaemons || cur() == nil {
 		return time.NewTicker(d)
 	}
 	if d <= 0 {
@@ -301,7 +308,7 @@ func TimeNewTicker(d time.Duration) *time.Ticker {
 
 // TimeNewTimer replaces time.NewTimer.
 func TimeNewTimer(d time.Duration) *time.Timer {
-	if cur() == nil {
+	if FreeDaemons || cur() == nil {
 		return time.NewTimer(d)
 	}
 	tm := newTimer(d, 0, nil)
@@ -317,7 +324,7 @@ var simFuncTimers [64]struct {
 
 // TimeAfterFunc replaces time.AfterFunc.
 func TimeAfterFunc(d time.Duration, f func()) *time.Timer {
-	if cur() == nil {
+	if FreeDaemons || cur() == nil {
 		return time.AfterFunc(d, f)
 	}
 	tm := newTimer(d, 0, f)
@@ -394,7 +401,7 @@ func TimerStop(t *time.Timer) bool {
 
 // TimerReset replaces (*time.Timer).Reset.
 func TimerReset(t *time.Timer, d time.Duration) bool {
-	if cur() == nil {
+	if FreeDaemons || cur() == nil {
 		return t.Reset(d)
 	}
 	return timerReset(t, d)
@@ -416,7 +423,7 @@ func timerReset(t *time.Timer, d time.Duration) bool {
 
 // Go replaces the go statement inside the library.
 func Go(f func()) {
-	if cur() == nil {
+	if FreeDaemons || cur() == nil {
 		go f()
 		return
 	}
@@ -590,8 +597,9 @@ func Recv2[T any](ch <-chan T) (T, bool) {
 		if ch == nil {
 			pollForever(t)
 		}
-		if s := waiting(p, 2, t); s != nil {
+		if s := partnerFor(t, p, 2); s != nil {
 			// a sender is parked waiting for us: let it send for real, receive for real, keep control
+			markSenderParks(s)
 			wakePartner(s)
 			v, ok := <-ch
 			made()
@@ -625,19 +633,19 @@ func Send[T any](ch chan<- T, v T) {
 		if ch == nil {
 			pollForever(t)
 		}
-		if r := waiting(p, 1, t); r != nil {
+		if r := partnerFor(t, p, 1); r != nil {
 			// a receiver is parked waiting for us: hand control to it and complete the rendezvous
 			noteSwitch(t, r)
 			wakePartner(r)
 			ch <- v
-			made()
+			// from here on the receiver runs: touch nothing shared, just wait to be scheduled again
 			parkRunnable(t)
 			return
 		}
 		if pollOn(t, p, 2) {
 			// a receiver arrived, flagged us and is blocked in its receive: send, then wait to be scheduled
+			// (the receiver runs on: touch nothing shared)
 			ch <- v
-			made()
 			parkRunnable(t)
 			return
 		}
@@ -651,6 +659,13 @@ func Close[T any](ch chan<- T) {
 }
 
 //go:norace
+func markSenderParks(s *task) {
+	if s.sel != nil {
+		s.parkAfterSelect = true
+	}
+}
+
+//go:norace
 func schedPoint(t *task) { reschedule(t, EvSync) }
 
 //go:norace
@@ -660,25 +675,205 @@ func pollForever(t *task) {
 	}
 }
 
-// SelectBlock is executed in the default clause the instrumenter adds to a blocking select: no case
-// is ready, so the task parks until something has happened and the select is retried.
+// SelCase describes one communication clause of a blocking select statement.
+type SelCase struct {
+	ch  unsafe.Pointer // the runtime's channel object
+	dir int            // 1 receive, 2 send
+}
+
+// RecvCase describes `case ... <-ch`.
+func RecvCase[T any](ch <-chan T) SelCase {
+	return SelCase{ch: *(*unsafe.Pointer)(unsafe.Pointer(&ch)), dir: 1}
+}
+
+// SendCase describes `case ch <- v`.
+func SendCase[T any](ch chan<- T) SelCase {
+	return SelCase{ch: *(*unsafe.Pointer)(unsafe.Pointer(&ch)), dir: 2}
+}
+
+// chanHeader mirrors the first fields of the runtime's hchan (go1.21 .. go1.23): the number of buffered
+// elements, the buffer size and the closed flag are read directly, without a data-race annotation and
+// without calling into another task's closures. The layout is verified once per process (checkLayout).
+type chanHeader struct {
+	qcount   uint
+	dataqsiz uint
+	buf      unsafe.Pointer
+	elemsize uint16
+	closed   uint32
+}
+
+var layoutOK = checkLayout()
+
+func checkLayout() bool {
+	c := make(chan int32, 3)
+	c <- 7
+	h := (*chanHeader)(*(*unsafe.Pointer)(unsafe.Pointer(&c)))
+	ok := h.qcount == 1 && h.dataqsiz == 3 && h.elemsize == 4 && h.closed == 0
+	close(c)
+	return ok && h.closed != 0
+}
+
+//go:norace
+func caseReady(c *SelCase) bool {
+	if c.ch == nil {
+		return false
+	}
+	h := (*chanHeader)(c.ch)
+	if h.closed != 0 {
+		return true
+	}
+	if c.dir == 1 {
+		return h.qcount > 0
+	}
+	return h.qcount < h.dataqsiz
+}
+
+// MultiReadySelects counts select statements entered with more than one ready case (unowned choice).
+var MultiReadySelects int
+
+//go:norace
+func countReady(cases []SelCase) int {
+	n := 0
+	for i := range cases {
+		if caseReady(&cases[i]) {
+			n++
+		}
+	}
+	return n
+}
+
+//go:norace
+func anyReady(cases []SelCase) bool {
+	for i := range cases {
+		if caseReady(&cases[i]) {
+			return true
+		}
+	}
+	return false
+}
+
+// SelectEnter guards a blocking select statement (inserted by the instrumenter's pre-pass together
+// with the hoisting of the channel operands). It returns when the native select that follows can
+// complete without blocking inside the runtime on something only a parked task could provide:
+// a case is ready (buffered data / free slot / closed channel / fired timer), or an unbuffered
+// rendezvous with a waiting partner has been arranged.
 //
 //go:norace
-func SelectBlock() {
+func SelectEnter(cases ...SelCase) {
 	t := cur()
-	if t == nil {
-		// outside a simulation the added default clause would spin: yield the processor briefly
-		time.Sleep(50 * time.Microsecond)
+	if t == nil || FreeDaemons {
 		return
 	}
+	if !layoutOK {
+		panic("zzsimrt: the runtime's channel layout is not the one this simulator was written for")
+	}
+	schedPoint(t)
+	for {
+		if n := countReady(cases); n > 0 {
+			if n > 1 {
+				// Go picks one of several ready cases at random, from a generator nobody can seed
+				MultiReadySelects++
+			}
+			return
+		}
+		if selectMeet(t, cases) {
+			return
+		}
+		if selectWait(t, cases) {
+			return // a partner arranged a rendezvous with us
+		}
+	}
+}
+
+// selectMeet looks for a task waiting on the other side of one of the (not ready) cases and arranges
+// the rendezvous with it.
+//
+//go:norace
+func selectMeet(t *task, cases []SelCase) bool {
+	for i := range cases {
+		c := &cases[i]
+		if c.ch == nil {
+			continue
+		}
+		p := partnerFor(t, c.ch, 3-c.dir)
+		if p == nil {
+			continue
+		}
+		arrange(t, p, c.dir)
+		return true
+	}
+	return false
+}
+
+// partnerFor returns a task parked on channel ch in direction dir: in a plain operation, or in a
+// select none of whose other cases is ready (such a task would rather take its ready case).
+//
+//go:norace
+func partnerFor(self *task, ch unsafe.Pointer, dir int) *task {
+	if p := waiting(ch, dir, self); p != nil {
+		return p
+	}
+	for i := 0; i < hiSlot; i++ {
+		p := &tasks[i]
+		if p == self || !p.alive || p.state != tsPolling || p.meet || p.sel == nil {
+			continue
+		}
+		has := false
+		for k := range p.sel {
+			if p.sel[k].ch == ch && p.sel[k].dir == dir {
+				has = true
+			}
+		}
+		if has && !anyReady(p.sel) {
+			return p
+		}
+	}
+	return nil
+}
+
+// arrange: the running task t (direction dir on the shared channel) meets the parked task p. The
+// receiver of the value keeps control afterwards, the sender parks again as runnable.
+//
+//go:norace
+func arrange(t, p *task, dir int) {
+	if dir == 2 {
+		// t sends: p receives and runs on; t parks once its select has fired
+		t.parkAfterSelect = true
+		noteSwitch(t, p)
+	} else if p.sel != nil {
+		// t receives from a task waiting in a select: that task parks after its send
+		p.parkAfterSelect = true
+	}
+	wakePartner(p)
+}
+
+// selectWait parks t as a select waiter; reports whether it was woken for a rendezvous.
+//
+//go:norace
+func selectWait(t *task, cases []SelCase) bool {
+	t.sel = cases
 	poll(t)
+	t.sel = nil
+	if t.meet {
+		t.meet = false
+		return true
+	}
+	return false
 }
 
 // SelectCase is executed at the top of every communication clause: a channel operation succeeded.
 //
 //go:norace
 func SelectCase() {
-	if cur() != nil {
-		progress++
+	t := cur()
+	if t == nil {
+		return
 	}
+	if t.parkAfterSelect {
+		// this task was the sender of a rendezvous: the receiver runs on; touch nothing shared until rescheduled
+		t.parkAfterSelect = false
+		parkRunnable(t)
+		return
+	}
+	progress++
 }
